@@ -48,6 +48,8 @@ func (Driver) Info() core.Info {
 			"(fixed argument lists per function) x EVERY single-position weakening x EVERY refinement kind of the menu is enumerated, and a hand-written corpus of boundary pairs. " +
 			"History steps: the lists of a case (concrete, weakened, a second concrete list of the same function) are called again through ONE reused argument slice (weakened then concrete, " +
 			"concrete then weakened, other known values in between) and each outcome is held against the outcome of the same list through a fresh slice. " +
+			"Chained calls: the concrete and the abstract result of one step are the two sides of an argument of later steps (3-6 calls of sequence/collection functions); after every call earlier pairs are re-checked, " +
+			"one earlier concrete call is repeated, and all values in play are compared with what they were when handed out. " +
 			"distinct = hash of (function, concrete arguments, weakened arguments); non-trivial = the concrete call succeeded and at least one position was replaced by an unknown value",
 		Assumptions: []string{
 			"mon.Admits is the weakest reading of 'admits' (infinite bounds = unset; sets by necessary conditions only; marks not compared)",
@@ -256,6 +258,13 @@ func errClass(err error) string {
 // false when the weakening was dropped (it does not admit the original, holds
 // an untyped unknown, or replaces nothing).
 func pair(c *core.Ctx, idx int64, fd *fnDef, conc []cty.Value, cres cty.Value, abs []cty.Value, mode string) (valid bool) {
+	valid, _, _ = pairR(c, idx, fd, conc, cres, abs, mode)
+	return
+}
+
+// pairR is pair that also hands back the abstract result (ok is true when the
+// weakened call returned a value); chain.go feeds it into later calls.
+func pairR(c *core.Ctx, idx int64, fd *fnDef, conc []cty.Value, cres cty.Value, abs []cty.Value, mode string) (valid bool, ares cty.Value, ok bool) {
 	if why := weakeningAdmits(conc, abs); why != "" {
 		if why == "nothing replaced" {
 			c.Count("weakening-dropped:nothing-replaced")
@@ -299,7 +308,7 @@ func pair(c *core.Ctx, idx int64, fd *fnDef, conc []cty.Value, cres cty.Value, a
 			fmt.Sprintf("concrete result %#v; error: %s", cres, res.err))
 		return
 	}
-	ares := res.v
+	ares, ok = res.v, true
 	if w := mon.WellFormed(ares); w != "" {
 		c.CrossNote("C06", site+": "+w, d)
 	}
@@ -587,6 +596,7 @@ func (Driver) Run(c *core.Ctx) {
 		}
 		histories(c, i, r, fd, conc, cres, valid)
 	}
+	runChains(c, 500_000_000)
 	runCorpus(c, 1_000_000_000)
 	runCatalogue(c, 2_000_000_000)
 	if c.Batch == 0 {
